@@ -61,6 +61,7 @@ def run(ctx, res):
             res.oracle_runs += 1
             for what in S.oracle_query(c["spec"], q):
                 viol(res, what, {"nums": [str(x) for x in c["spec"]["nums"]], "styles": c["spec"]["styles"],
+                                 "sample_num_objects": [repr(v) for v in S.impl_nums(c["spec"])] if "impl_nums" in c["spec"] else None,
                                  "before_these_calls": c.get("prelude"), "pre_seed": c.get("pre_seed"),
                                  "seed": c["spec"].get("seed"), "built_by_from_dict": bool(c["spec"].get("via_dict")),
                                  "query": C.jsonable(q)})
